@@ -16,6 +16,20 @@ CLAIMED = {
         technique="contract refinement by symbolic execution of the real AST + SMT (z3); laws as lemmas over contracts",
         note=TRUST + "; options are opaque values, eventgroups an arbitrary int set",
     ),
+    "C07": dict(
+        category="other",
+        text="check_received is proved, for an arbitrary (symbolic) table of previous messages, every sender/channel/flag/16-bit id, to refine the statement's rule and to update exactly its own record; the history claims are induction-step lemmas over that contract. One input region (previous id 0) is a recorded known finding D11, hence level 'other' rather than 'proof'.",
+        design_ref="DESIGN.md 4/C07, 5/D11",
+        technique="contract refinement by symbolic execution of the real AST over a symbolic map + SMT; history lemmas over the contract",
+        note=TRUST + "; sender addresses opaque; known finding D11 excluded by obligation name",
+    ),
+    "C08": dict(
+        category="proof",
+        text="assign_outgoing is proved to refine next_session over an arbitrary table (frame: other destinations and the incoming table untouched, table only accessed under the lock, stored ids stay in 1..0xFFFF); the 1..0xFFFF cycle with the flag clearing at the first wrap is an induction (base + step) over the contract, unbounded in the number of sends.",
+        design_ref="DESIGN.md 4/C08",
+        technique="contract refinement + inductive lemma over the contract, discharged by z3",
+        note=TRUST + "; threading.Lock trusted as a mutex; destinations identified by the remote argument",
+    ),
 }
 
 NA_REASONS = {
